@@ -1,20 +1,21 @@
 CONSTANTS
-  Kind = "mutex"
-  Rows = {0, 1, 100}
-  Cols = {0, 1, 2, 3}
-  Ops = {"SetBit","ClearBit","ClearRow","BulkMutex","BulkClear","Snapshot","BgSnapshot","Reopen","Blocks"}
-  Scope = "mini"
-  Depth = 5
-  ShapeName = "bwb"
-  InitMode = "any"
+  Kind = "set"
+  Rows = {0, 100}
+  Cols = {0, 2}
+  Ops = {"SetBit","ClearBit","SetRow","ClearRow","BulkSet","BulkClear","RoaringSet","RoaringClear","Snapshot","Enqueue","BgSnapshot","Reopen","Row","Bit","Rows","ForEachBit","Blocks","BlockData"}
+  Scope = "small"
+  Depth = 0
+  ShapeName = "free"
+  InitMode = "empty"
   MaxOpNs = {"tiny","huge"}
-  Provs = {"ops","snap","reopen"}
+  Provs = {"ops"}
   RowInval = {"setBit","clearBit","setRow","clearRow","bulk","bulkMutex","roaring","setValue","clearValue","importValue"}
   CkInval = {"setBit","clearBit","setRow","clearRow","bulk","bulkMutex","roaring","setValue","clearValue","importValue"}
 INIT Init
 NEXT Next
+VIEW mview
 INVARIANT TypeOK
 INVARIANT ReadsReflectWrites
 INVARIANT ChecksumFresh
-INVARIANT Emit
+INVARIANT ValueRoundTrip
 CHECK_DEADLOCK FALSE
